@@ -65,15 +65,17 @@ let predict (c : string) (obs : string) : string * string * bool =
            else begin
              let ok_spec = spec_b p (z_of_zt tol) eps (z_of_string left) (List.map z_of_zt xs) (z_of_string fin) in
              let why =
-               if post <> "1" then "exhausted schedule does not keep reporting start+duration with ok=false"
-               else if not ok_spec then begin
+               if not ok_spec then begin
                  (* name the part of the specification that fails *)
                  let exact_fin = ZT.equal (ZT.of_string fin) (zt_of_z (spec_finish p)) in
                  let left_ok = ZT.equal (ZT.of_string left) (ZT.of_int nx) in
                  if not exact_fin then "finish instant is not start+duration (want offset " ^ ZT.to_string (zt_of_z (spec_finish p)) ^ ")"
                  else if not left_ok then "Left() before start differs from the number of tokens"
                  else Printf.sprintf "tokens do not realise the integral of the configured rate (observed %d tokens, specification %d)" nx (List.length mtoks)
-               end else "" in
+               end
+               else if post = "left" then "exhausted schedule reports Left() <> 0"
+               else if post <> "1" then "exhausted schedule does not keep reporting start+duration with ok=false"
+               else "" in
              let ok = (why = "") in
              let nm = List.length mtoks in
              let within = ok && not mnan && abs (nm - nx) <= 1 && close tol mtoks xs
